@@ -85,3 +85,14 @@ package node
 //@ # an owner is taken away again only from a binding made in this very pass (the pod reports no IPv4 address: the half of a
 //@ # dual-stack pair whose IPv6 half could not be found); an address a running pod reports is never unbound here
 //@ guard store PodRequest.ipv4Ref in assignIPFromLocalPool: value != nil || target.ipv4Ref == nil || target.IPv4 == ""
+
+//@ for C08
+//@ # ---- full synchronisation: an interface that is recorded but not attached leaves the record only if the cloud delete of
+//@ # ---- it did not fail in this very iteration (otherwise it stays recorded and the delete is retried) ----
+//@ ghost c08sdelerr bool = false
+//@ func ReconcileNode.syncWithAPI
+//@   requires n != nil && node != nil && n.aliyun != nil
+//@   at call DescribeNetworkInterfaceV2#2: ghost c08sdelerr = false
+//@   at call DeleteNetworkInterfaceV2: ghost c08sdelerr = (result != nil)
+//@   loop 2 invariant c08sdelerr ==> err != nil
+//@ guard call delete in syncWithAPI: !c08sdelerr
